@@ -249,3 +249,19 @@ _patch('C13', 'level_note', 'and A-classid (no class address reuse while cached:
 _patch('C05', 'level_text', 'the interpreter ROOT SET (impl TraceRoot for Vm) reaches every GC-typed field of the Vm struct',
        'the interpreter ROOT SET (impl TraceRoot for Vm) and the root set of a running compilation (impl TraceRoot for Compiler, ClassAttributes) reach every GC-typed field of their structs')
 _patch('C05', 'level_note', 'NOT decided: the root set of a running compilation (Compiler), Fiber stack slices beyond Fiber::trace,', 'Exempted fields, each with its alias reason listed as an assumption: Vm.builtin / global_module / current_fun, Compiler.chunk / root_trace (outermost compiler only: stated as an extra clause), ClassAttributes.name, Class.init. NOT decided:')
+
+# ---- front-end units (parserd / resolverd / compilerd / catchd / scannerd) and print_error ---------------------------------------------
+_patch('C15', 'level_text', 'Only the compiler back half is decided:',
+       'Front end, stub-and-log extraction of the real functions: the scanner (scannerd unit: scan_token, string, number, identifier, instance_access, skip_white_space, line_offsets, match_char, character classes) makes progress — every token other than Eof reads at least one character and Eof only comes at the end of the text, every scanner loop terminates —, its interpolation stack never underflows, overflows or pops when empty, and a Number token always has the shape D+[.D+][(e|E)[+-]D+] that the compiler can parse; the parser keeps its loop depth balanced over every path of loop_ / function / lambda / fun_body and break / continue outside a loop are diagnostics, not panics (D23 fixed); the resolver visits every sub-expression of map / call / ternary / binary / unary / index and resolves a for loop in the order the compiler declares it (D24 fixed). Compiler back half:')
+_patch('C15', 'level_note', 'Scanner, parser, resolver and Compiler totality and the REPL are NOT decided (unbounded AST, arena tables, unsafe parent pointers: outside both tools).',
+       'NOT decided: the rest of the parser (recursive descent over the token stream, its recursion depth), the rest of the resolver and Compiler (arena tables, unsafe parent pointers), the scanner keyword trie and constructor, the REPL. In the front-end units everything the extracted functions call is a stub that leaves the bookkeeping state alone and appends to a ghost log (A-scanner / A-parser / A-resolver).')
+CHECKS['C15']['technique'] = 'Verus panic-freedom, progress and termination obligations on the real scanner, on the parser loop-depth bookkeeping, on the resolver visitors, and on the real peephole pass, label resolution and encoder'
+_patch('C18', 'level_text', 'Only this chain is decided.',
+       'The scanner keeps the line table exact: line_offsets holds the position after every line break read so far, whichever path read it (white space, inside a string literal, the final drain), up to the first Error token of a string literal (scannerd unit). Fiber::print_error prints every frame collected for the error, innermost first, once (D22 fixed). Only this chain is decided.')
+_patch('C18', 'level_note', 'exit-status mapping in Vm::run, scanner line counting.', 'exit-status mapping in Vm::run, exit(n). After an Error token inside a string literal (a line break right after a backslash or inside \\u{..}) the line table misses that break; only later diagnostics of the same failed compilation are affected (observation, DESIGN §11).')
+CHECKS['C18']['technique'] = 'Verus contracts along the line-attribution chain: the scanner line table, LineOffsets::offset_line, Compiler::emit_byte, ByteCodeEncoder::encode (one line per byte), peephole lines lock-step, Chunk::get_line, pause_unwind / print_error'
+_patch('C04', 'level_text', 'run_fun / run_method fix that boundary as the frame count before the callee frame.',
+       'run_fun / run_method fix that boundary as the frame count before the callee frame; Vm::runtime_error builds the error through the same hooks (D20 fixed). The compiler half (compilerd / catchd units, stub-and-log extraction of the real Compiler::try_ / catch / return_ / break_ / continue_ / emit_return / loop_scope): a try block pushes one handler and pops it on its normal exit, every catch clause is compiled at the depth outside the try, and return / break / continue emit one PopHandler for every try block they leave (D25 fixed) and none for those they stay in.')
+_patch('C04', 'level_note', 'Not decided: PopHandler emission on every exit path (Compiler), ', 'Not decided: that every statement is compiled at the try depth of its enclosing try blocks is the composition of the compilerd contracts over the AST (each step checked, the induction over the tree not), ')
+_patch('C02', 'level_text', 'What is NOT decided is the larger half of the property:',
+       'Front-end pieces (stub-and-log extraction): the run-time capture table (captures unit: Captures::get_capture / get_capture_value / set_capture_value read and write the cell itself, bit for bit, D19 fixed); Resolver::for_ declares the loop variable inside the per-iteration scope so every iteration gets a fresh cell (resolverd, D24 fixed); Compiler::catch declares the error variable in the catch scope (catchd). What is NOT decided is the larger half of the property:')
